@@ -281,10 +281,17 @@ Definition model_cli (c : clicase) : option cli_args * outcome :=
   | inr a => (Some a, front false false (with_args (l_base c) a (l_only_bp c)))
   end.
 
+(* the requirements are judged on the arguments validate_params actually received
+   (a more tolerant option parser is not the property's business); when it was
+   never called although the run went on, on the model's parse of the options *)
 Definition holds_cli (c : clicase) : bool :=
-  match cli_parse (l_chroms c) (l_region c) with
-  | inl _ => true                                      (* unparsable options: no documented demand *)
-  | inr a => holds_outcome (with_args (l_base c) a (l_only_bp c)) (l_front c) (l_sim c)
+  match l_args c with
+  | Some a => holds_outcome (with_args (l_base c) a (l_only_bp c)) (l_front c) (l_sim c)
+  | None =>
+      match l_front c, cli_parse (l_chroms c) (l_region c) with
+      | Accept _, inr a => holds_outcome (with_args (l_base c) a (l_only_bp c)) (l_front c) (l_sim c)
+      | _, _ => true
+      end
   end.
 
 Definition check_cli (c : clicase) : bool * bool :=
